@@ -20,7 +20,7 @@ LEVEL = "model_checking"
 
 ACTIONS = ["Pick", "Emit", "Build", "Again"]
 NEGS = ["NoShift", "BoundaryNotShifted", "BoundaryEntryLost", "ThresholdOffByOne", "KernIndexBeforeDedupe",
-        "ZeroNotFirst", "DedupeUnstableIndex", "TagLostOnZeroWidth",
+        "ZeroNotFirst", "DedupeUnstableIndex", "TagLostOnZeroWidth", "LabelsMerged",
         "DevOffsetSaturates", "DevOrphanLigLabelKept", "DevStopInChainLost", "DevHeaderWordsDropped"]
 # finding key -> named deviation of the specification
 DEVIATIONS = {
@@ -201,9 +201,9 @@ def run(ctx):
                  ("mc-dims", model("TfmCanon.dims", "MC_TfmCanon_dims_thorough.cfg", 6)),
                  ("mc-tags", model("TfmCanon.tags", "MC_TfmCanon_tags_thorough.cfg", 4)),
                  ("mc-hdr", model("TfmCanon.header", "MC_TfmCanon_hdr.cfg", 1))]
-    # quick: the four controls that are the recorded deviations + two of the eight seeded defects (which two
-    # depends on the seed); thorough and --selftest: all twelve
-    negs = NEGS if not q else NEGS[8:] + [NEGS[seed % 8], NEGS[(seed + 3) % 8]]
+    # quick: the four controls that are the recorded deviations + two of the nine seeded defects (which two
+    # depends on the seed); thorough and --selftest: all thirteen
+    negs = NEGS if not q else NEGS[9:] + [NEGS[seed % 9], NEGS[(seed + 4) % 9]]
     for b in negs:
         jobs.append((f"neg:{b}", (lambda b=b: tlc_expect_refuted("MC_TfmCanon", f"NEG_TfmCanon_{b}.cfg", b, workers=2))))
 
@@ -285,12 +285,6 @@ def run(ctx):
             ctx.sample({"driver": b.name, "src": e.get("src"), "len0": e.get("len0"), "len1": e.get("len1"),
                         "eq": e.get("eq"), "w1": e.get("w1"), "how": e.get("how")})
     ctx.cov["parts"]["bind.random"]["generator"] = gen_stats
-    # vacuity guard: the fonts the generators build to be silent must mostly be silent
-    clean, clean_w = gen_stats.get("clean", 0), gen_stats.get("clean_with_warnings", 0)
-    if clean == 0 or clean_w * 5 > clean:
-        raise ToolError(f"vacuous: {clean_w} of {clean} fonts generated to convert silently raised warnings "
-                        f"(they are outside the quantifier; nothing is decided about them)")
-
     # rejected events once more, with exactly one recorded deviation enabled at a time
     explained = {}
     for key, dev in DEVIATIONS.items():
@@ -308,6 +302,13 @@ def run(ctx):
     for k, (b, i, v) in enumerate(rejected):
         e = b.event(i)
         if k in explained:
+            if explained[k] not in ctx.known:
+                # one reproduction per recorded finding: ./check C11 --replay replays/C11/<tier>-known-<key>.json
+                d = VERIF / "replays" / ctx.id
+                d.mkdir(parents=True, exist_ok=True)
+                (d / f"{ctx.tier}-known-{explained[k]}.json").write_text(json.dumps(
+                    {"property": ctx.id, "known_finding": explained[k], "desc": describe(e, v), "part": b.name,
+                     "event": slim(e), "verdict": {x: v[x] for x in v if x != "want"}}, indent=1, sort_keys=True))
             ctx.known_finding(explained[k])
             continue
         shown += 1
@@ -319,6 +320,13 @@ def run(ctx):
             ctx.judge(key, describe(e, v), {"part": b.name, "event": slim(e), "verdict": {x: v[x] for x in v if x != "want"}})
         else:
             ctx.violations.append((describe(e, v), "(not stored)"))
+    # vacuity guard: the fonts the generators build to convert silently must mostly do so (a font with a warning
+    # is outside the quantifier and nothing is decided about it).  Only when nothing else was found: a violation
+    # is a violation, tool trouble never accompanies one.
+    clean, clean_w = gen_stats.get("clean", 0), gen_stats.get("clean_with_warnings", 0)
+    if not ctx.violations and (clean == 0 or clean_w * 5 > clean):
+        raise ToolError(f"vacuous: {clean_w} of {clean} fonts generated to convert silently raised warnings "
+                        f"(they are outside the quantifier; nothing is decided about them)")
     ctx.assumptions += [
         "quantifier: a font is 'warning-free' when neither tfm_to_pl nor pl_to_tfm reports anything on the first trip; "
         "other fonts are recorded, counted (skip-warnings) and not judged",
